@@ -19,6 +19,8 @@ import collections
 import json
 import pickle
 
+import planner
+
 
 def _closure(g, todo):
     out, seen = set(), set()
@@ -49,25 +51,29 @@ def validate_script(g, script, op_lines):
         if lab is None or not st.get("conf", {}).get("has"):
             return compared, None, "step %d carries no label/projection" % k
         skipped = st["last"]["res"] == "skip"
+        belief0 = belief
         nxt, enabled_somewhere = [], False
+        obs_res = planner.result_of(planner.view_of_st(st))
         for n in belief:
             succ = g["client"].get(n, {}).get(lab)
             if succ:
                 enabled_somewhere = True
                 if not skipped:
-                    nxt.extend(succ)
+                    # the reply of the operation must be the one of the model transition
+                    nxt.extend(v for v, res in succ if res is None or res == obs_res)
             elif skipped or s["op"] == "adv":
                 nxt.append(n)        # not enabled in the model here: the driver skipped it / time passes without effect
         if not skipped and not enabled_somewhere and s["op"] != "adv":
             # the runner took a branch of its own nondeterminism on which the planned step does not exist in the bounded model
             return compared, None, "step %d (%s) not enabled in any candidate state" % (k, s["op"])
         cand = _closure(g, nxt)
-        obs = st["conf"]["proj"]
-        belief = {n for n in cand if g["proj"].get(n, "") == obs}
+        obs = planner.canon_view(planner.view_of_st(st), False, g.get("with_store", True))
+        belief = {n for n in cand if planner.view_matches(g["proj"].get(n, ""), obs)}
         compared += 1
         if not belief:
             return compared, {"sid": script["id"], "step": k, "op": {x: s[x] for x in s if x != "lab"}, "skipped": skipped,
-                              "observed": obs, "allowed": sorted({g["proj"].get(n, "") for n in cand})[:8]}, None
+                              "observed": obs_res + " " + obs, "allowed": sorted({g["proj"].get(n, "") for n in cand})[:4],
+                              "allowed_replies": sorted({str(res) for n in belief0 for v, res in g["client"].get(n, {}).get(lab, [])})[:6]}, None
     return compared, None, None
 
 
